@@ -436,11 +436,17 @@ func (ms *Modules) Process() []error {
 		return errorSort(errs)
 	}
 
-	for _, m := range ms.Modules {
-		errs = append(errs, ToEntry(m).GetErrors()...)
-	}
-	for _, m := range ms.SubModules {
-		errs = append(errs, ToEntry(m).GetErrors()...)
+	// The first conversion of a module fills the caches the later ones read
+	// (merged submodules, groupings): convert in a fixed order.
+	for _, mm := range []map[string]*Module{ms.Modules, ms.SubModules} {
+		keys := make([]string, 0, len(mm))
+		for k := range mm {
+			keys = append(keys, k)
+		}
+		sort.Strings(keys)
+		for _, k := range keys {
+			errs = append(errs, ToEntry(mm[k]).GetErrors()...)
+		}
 	}
 
 	if len(errs) > 0 {
